@@ -346,6 +346,26 @@ def _caret_fragment(nth):
                        r == char_index(window_text@, local_start as int) - char_index(window_text@, ls) })""")],
          canaries=['C17:the_caret_is_indented_by_the_number_of_characters_between_the_start_of_its_line_and_the_marker'])
 ITEMS += [_caret_fragment(1), _caret_fragment(2)]
+
+# ---- F45: a source line of the secondary window and the caret line below it have the same gutter (source line + caret block of the `for` body) ----
+_GUT_RW = [(r'writeln!\(f, "\{display_row:>(\w+)\$\} \| \{line\}"\)\?;', r'fmt_gutter_line(f, \1)?;', 1, 'R12'),
+           (r'writeln!\(\s*f,\s*"\{space:>(\w+)\$\} \| \{space:>caret_chars\$\}\^(?: \{msg\})?",[^;]*?\)\?;', r'fmt_gutter_line(f, \1)?;', None, 'R12'),
+           (r'writeln!\(\s*f,\s*"  \| \{space:>caret_chars\$\}\^(?: \{msg\})?",[^;]*?\)\?;', r'fmt_gutter_line(f, 2)?;', None, 'R12'),   # a fixed gutter of two columns
+           (r'msg\.is_empty\(\)', 'str_is_empty_c(msg)', None, 'R8'),
+           (r"window_text\[\.\.local_start\]\s*\.rfind\('\\n'\)\s*\.map\(\|i\| i \+ 1\)\s*\.unwrap_or\(0\)", 'str_line_start_before(window_text, local_start)', None, 'R8+R18'),
+           (r'window_text\[line_byte_start\.\.local_start\]\.chars\(\)\.count\(\)', 'str_chars_count(str_slice(window_text, line_byte_start, local_start))', None, 'R8')]
+ITEMS += [
+    dict(src=SN, path='fn fmt_snippet_window_with_mapping_or_fallback', id='fmt_snippet_window_with_mapping_or_fallback#gutter', props=P,
+         fragment=r'writeln!\(f, "\{display_row:>\w+\$\} \| \{line\}"\)\?;\s*if cur_row == row \{.*?\n        \}', fragment_flags='S',
+         wrapper="fn source_and_caret_lines(f: &mut Fmt, display_row: usize, gutter_width: usize, line: &str, cur_row: usize, row: usize, window_text: &str, local_start: usize, msg: &str) -> Result<(), FmtErrorC> { {FRAG} Ok(()) }",
+         pre_rewrites=_GUT_RW,
+         requires=[('the_marker_offset_is_a_char_boundary_of_the_window', 'local_start <= window_text.spec_bytes().len() && boundary(window_text@, local_start as int)')],
+         proofs=[dict(at='start', text='lemma_char_off_ends(window_text@);'),
+                 dict(before_re=r'let caret_chars = ', text="lemma_slice_char_offs(window_text@, line_start_before(window_text.spec_bytes(), local_start as int), local_start as int);")],
+         ensures=[('C17:the_caret_line_of_the_defined_here_window_has_the_gutter_of_the_source_line_above_it_so_the_marker_stands_under_the_reported_column',
+                   'r is Ok && cur_row == row ==> ({ let b = final(f).bars(); b.len() == old(f).bars().len() + 2 && b[b.len() - 1] == b[b.len() - 2] })')],
+         canaries=['C17:the_caret_line_of_the_defined_here_window_has_the_gutter_of_the_source_line_above_it_so_the_marker_stands_under_the_reported_column']),
+]
 # ---- crop_window_text as a whole, against the sentence of C17 (harness only: the deductive contract above proves safety, bounds and the
 # rebased marker; what the cropped TEXT is, is checked here on the real function text, bounded) ----
 ITEMS += [
@@ -355,4 +375,22 @@ ITEMS += [
                                                                 ('src/de/snippet.rs', 'fn sanitize_terminal_snippet_preserve_len'), ('src/de/snippet.rs', 'fn crop_window_text')]),
          ensures=[('C17:every_line_of_the_window_is_shown_cropped_to_the_radius_around_the_error_column', 'true'),
                   ('C17:the_marker_still_starts_at_the_character_of_the_reported_column', 'true')]),
+]
+
+# ---- F46: the label under the marker reflects message text (keys, values): it is sanitised like the snippet text, and it is the sanitised text
+# that is handed to the renderer (the builder expression of the external crate becomes a call whose precondition says so, R8) ----
+ITEMS += [
+    dict(src=SN, path='impl Snippet/fn fmt_or_fallback', id='Snippet::fmt_or_fallback#label', props=P,
+         fragment=r'let label = [^;]*;', fragment_flags='S',
+         wrapper='fn label_fragment(msg: &str) -> String { {FRAG} label }',
+         rewrites=[(r'sanitize_terminal_snippet_preserve_len\(msg\.to_string\(\)\)', 'sanitize_label(msg)', 1, 'R8')],
+         ensures=[('C17:the_label_under_the_marker_is_sanitised_like_the_snippet_text', 'sanitized(r@)')],
+         canaries=['C17:the_label_under_the_marker_is_sanitised_like_the_snippet_text']),
+    dict(src=SN, path='impl Snippet/fn fmt_or_fallback', id='Snippet::fmt_or_fallback#annotation', props=P,
+         fragment=r'AnnotationKind::Primary\s*\.span\(local_start\.\.local_end\)\s*\.label\([^()]*\)', fragment_flags='S',
+         wrapper='fn annotation_fragment(msg: &str, label: String, local_start: usize, local_end: usize) { {FRAG}; }',
+         pre_rewrites=[(r'AnnotationKind::Primary\s*\.span\(local_start\.\.local_end\)\s*\.label\(&label\)', 'primary_annotation(local_start, local_end, label.as_str())', None, 'R8'),
+                       (r'AnnotationKind::Primary\s*\.span\(local_start\.\.local_end\)\s*\.label\(([^()]*)\)', r'primary_annotation(local_start, local_end, \1)', None, 'R8')],
+         requires=[('the_label_was_sanitised', 'sanitized(label@)')],
+         ensures=[('C17:it_is_the_sanitised_label_that_is_handed_to_the_renderer_never_the_raw_message', 'true')]),
 ]
